@@ -235,6 +235,13 @@ func (c *Config) buildStandardTLSConfig() error {
 
 	// set up client authentication if enabled
 	if config.ClientAuth != tls.NoClientCert {
+		// All sites of a listener share its session ticket keys, and a
+		// resumed session is not verified against ClientCAs again: a
+		// ticket obtained from a site with another client CA would be
+		// honoured here. Sites that ask for client certificates do
+		// without tickets.
+		config.SessionTicketsDisabled = true
+
 		pool := x509.NewCertPool()
 		clientCertsAdded := make(map[string]struct{})
 
